@@ -50,8 +50,16 @@ for i, (rel, fn, a, b, rep, desc) in enumerate(mutants[:maxn]):
     open(os.path.join(WORK, 'src', rel), 'w').write(orig[rel][:a] + rep + orig[rel][b:])
     if subprocess.run(['cargo', 'check', '--offline', '-q'], cwd=WORK, env=env, stdout=subprocess.DEVNULL, stderr=subprocess.DEVNULL).returncode != 0:
         continue
-    t = subprocess.run(['cargo', 'test', '--offline', '--no-fail-fast', '-q'], cwd=WORK, env=env, stdout=subprocess.PIPE, stderr=subprocess.STDOUT, text=True, timeout=600)
     line = orig[rel].count('\n', 0, a) + 1
+    import signal
+    pr = subprocess.Popen(['cargo', 'test', '--offline', '--no-fail-fast', '-q'], cwd=WORK, env=env, stdout=subprocess.DEVNULL, stderr=subprocess.DEVNULL, start_new_session=True)
+    try:
+        rc_t = pr.wait(timeout=240)
+    except subprocess.TimeoutExpired:
+        os.killpg(pr.pid, signal.SIGKILL); pr.wait()
+        rc_t = 1      # a test that hangs counts as killed by the tests
+    class T: pass
+    t = T(); t.returncode = rc_t
     if t.returncode != 0:
         print('%s:%d %s | %s | killed by the existing tests' % (rel, line, fn, desc), flush=True)
         continue
